@@ -2484,9 +2484,11 @@ class Recipe:
                 self.used.add(dest_name)
                 self.results[dest_name] = step.to[0].fill_to(solvent, quantity)
                 step.to.append(self.results[dest_name])
+                solvent_unit = 'U' if solvent.is_enzyme() else config.moles_storage_unit
                 if isinstance(dest, Container):
-                    amount_added = self.results[dest_name].contents[solvent] - step.to[0].contents.get(solvent, 0)
-                    amount_added = Unit.convert_from(solvent, amount_added, config.moles_storage_unit, 'L')
+                    amount_added = (self.results[dest_name].contents.get(solvent, 0) -
+                                    step.to[0].contents.get(solvent, 0))
+                    amount_added = Unit.convert_from(solvent, amount_added, solvent_unit, 'L')
                     amount_added, unit = Unit.get_human_readable_unit(amount_added, 'L')
                     precision = config.precisions[unit] if unit in config.precisions else config.precisions['default']
                     step.instructions = (f"Fill '{dest.name}' with '{solvent.name}' up to {quantity}"
@@ -2535,9 +2537,9 @@ class Recipe:
                     plate = step.to[0]
                     for row in range(plate.n_rows):
                         for col in range(plate.n_columns):
-                            amount_added = self.results[dest_name].wells[row, col].contents[solvent] - \
+                            amount_added = self.results[dest_name].wells[row, col].contents.get(solvent, 0) - \
                                            plate.wells[row, col].contents.get(solvent, 0)
-                            amount_added = Unit.convert_from(solvent, amount_added, config.moles_storage_unit, 'uL')
+                            amount_added = Unit.convert_from(solvent, amount_added, solvent_unit, 'uL')
                             amounts[(row, col)] = round(amount_added, config.internal_precision)
                     max_amount = max(amounts.values())
                     _, unit = Unit.get_human_readable_unit(max_amount / 1e6, 'L')
